@@ -3,8 +3,11 @@
 // hang) and the text csvq prints for a parsed query parses again to a tree that
 // prints identically and evaluates identically.
 //
-// Files: c18_test.go (oracles, the two fw checks), gen_test.go (grammar based
-// query generator), fuzz_test.go (native fuzz target FuzzParse).
+// Files: c18_test.go (oracles, checks totality and roundtrip), gen_test.go and
+// gen2_test.go (grammar based query generator), stmt_test.go (check statements),
+// lit_test.go (check literals), derived_test.go (checks labels and show: the
+// text taken from result headers, error messages and SHOW output),
+// fuzz_test.go (native fuzz target FuzzParse).
 package c18
 
 import (
@@ -281,8 +284,8 @@ func evalSafe(toks []parser.Token) bool {
 	}
 	for i, tk := range toks {
 		switch tk.Token {
-		case parser.URL, parser.STDIN, parser.EXTERNAL_COMMAND, parser.Uncategorized:
-			return false
+		case parser.URL, parser.EXTERNAL_COMMAND, parser.Uncategorized:
+			return false // (STDIN is confined: a session evaluating a text with the keyword gets the fixed standard input fixtureStdin)
 		case parser.TABLE_FUNCTION:
 			switch strings.ToUpper(tk.Literal) {
 			case "DATA":
@@ -322,6 +325,23 @@ const fixtureSetup = "VAR @v1 := 3, @v2 := 'str', @v3;\n" +
 	"DECLARE cur CURSOR FOR SELECT a FROM tmp;\n" + // on the temporary table: no file access in the setup
 	"OPEN cur;\n" +
 	"FETCH cur INTO @v3;\n"
+
+// fixtureStdin is the standard input of a session that evaluates a text mentioning STDIN (FROM STDIN, CSV(',', STDIN),
+// STDIN.c1, STDIN.1). Texts without the keyword get no standard input: with one, csvq reads every query that has no FROM
+// clause from it. One data row, so that such FROM-less parts (scalar subqueries, the variable probe) keep one row.
+const fixtureStdin = "c1\n7\n"
+
+// sessOpt returns the session options for evaluating text.
+func sessOpt(ctx context.Context, text string, prep, ansi bool, capture bool) run.Opt {
+	o := run.Opt{Dir: fixtureDir(), CPU: 1, Ctx: ctx, CaptureOut: capture}
+	for _, tk := range scanTokens(text, prep, ansi) {
+		if tk.Token == parser.STDIN {
+			o.HasStdin, o.Stdin = true, fixtureStdin
+			break
+		}
+	}
+	return o
+}
 
 var fixtureFiles = map[string]string{
 	"t1.csv":       "c1,c2,c3\n1,a,10\n2,b,\n3,,30\n2,b,40\n5,e,1.5\n",
@@ -411,7 +431,7 @@ func sameEval(a, b evalRes) bool {
 func evalText(text string, prep, ansi bool) (res evalRes) {
 	ctx, cancel := context.WithTimeout(context.Background(), 20*time.Second)
 	defer cancel()
-	s, err := run.NewSess(run.Opt{Dir: fixtureDir(), CPU: 1, Ctx: ctx})
+	s, err := run.NewSess(sessOpt(ctx, text, prep, ansi, false))
 	if err != nil {
 		return evalRes{skipped: "session: " + err.Error()}
 	}
@@ -450,7 +470,7 @@ func evalText(text string, prep, ansi bool) (res evalRes) {
 // probeVars reads the fixture variables after the evaluated text, so that what
 // SELECT ... INTO and (@v := expr) leave behind is part of "evaluates identically".
 func probeVars(s *run.Sess) string {
-	pr := s.Exec("SELECT @v1, @v2, @v3") // (every Execute starts a new list of result views)
+	pr := s.Exec("SELECT @v1, @v2, @v3 FROM DUAL") // (every Execute starts a new list of result views; DUAL: not the standard input)
 	if pr.Err != nil || len(pr.Views) != 1 {
 		return "probe failed: " + fmt.Sprint(pr.Err)
 	}
@@ -1017,9 +1037,10 @@ func TestC18RoundTrip(t *testing.T) {
 	fw.Run(t, fw.Spec[rtCase]{
 		ID: "C18", Name: "roundtrip", Quick: 20000, Thorough: 400000,
 		Gen: genRTCase, Check: checkRoundTrip,
-		Rule: "SELECT queries rendered from a grammar (all literal kinds with every escape spelling, quoted identifiers with special characters, arithmetic/comparison/logic, CASE, BETWEEN, IN, LIKE, IS, ANY/ALL, EXISTS, row values, JSON_ROW, functions, aggregate/list/analytic functions with OVER and frames, subqueries, all join kinds, LATERAL, CTEs, set operators, ORDER BY/LIMIT/OFFSET/FETCH, cursor status, variables, flags, constants, named placeholders in prepared mode; table objects of all five file formats CSV/FIXED/LTSV/JSON/JSONL over fixture files and the three inline formats CSV_INLINE/JSON_INLINE/JSON_TABLE in every grammar alternative (with and without format element, optional encoding/no_header/without_null arguments, path as identifier, FILE::/INLINE::/DATA::/URL:: table function or STDIN); STDIN.column and STDIN.n references; the keywords the grammar accepts as identifiers (TIES NULLS ROWS CSV JSON JSONL FIXED LTSV) bare and quoted; SELECT ... INTO variables on the outermost query; random keyword case, white space and comments). Oracle: s1=String() parses to one SELECT printing s1 again; the original text and s1, each parsed afresh and executed in a new session over fixed tables, give equal headers and values, leave equal values in the variables @v1-@v3 (side effects of INTO and @v := expr) or end in the same error class. non-trivial = has a string/quoted identifier needing an escape or parenthesis depth >= 3; distinct by the first 14 token kinds, escape flag, depth bucket, mode, evaluation class",
+		Rule: "SELECT queries rendered from a grammar (all literal kinds with every escape spelling, quoted identifiers with special characters, arithmetic/comparison/logic, CASE, BETWEEN, IN, LIKE, IS, ANY/ALL, EXISTS, row values, JSON_ROW, functions, aggregate/list/analytic functions with OVER and frames, subqueries, all join kinds, LATERAL, CTEs, set operators, ORDER BY/LIMIT/OFFSET/FETCH, cursor status, variables, flags, constants, named placeholders in prepared mode; table objects of all five file formats CSV/FIXED/LTSV/JSON/JSONL over fixture files and the three inline formats CSV_INLINE/JSON_INLINE/JSON_TABLE in every grammar alternative (with and without format element, optional encoding/no_header/without_null arguments, path as identifier, FILE::/INLINE::/DATA::/URL:: table function or STDIN); STDIN.column and STDIN.n references; the keywords the grammar accepts as identifiers (TIES NULLS ROWS CSV JSON JSONL FIXED LTSV) bare and quoted; SELECT ... INTO variables on the outermost query; row-value [NOT] IN (list or subquery) and [NOT] BETWEEN, LIKE with an expression as pattern, USING with two columns, GROUP BY with a second key expression; random keyword case, white space and comments). Oracle: s1=String() parses to one SELECT printing s1 again; the original text and s1, each parsed afresh and executed in a new session over fixed tables, give equal headers and values, leave equal values in the variables @v1-@v3 (side effects of INTO and @v := expr) or end in the same error class. non-trivial = has a string/quoted identifier needing an escape or parenthesis depth >= 3; distinct by the first 14 token kinds, escape flag, depth bucket, mode, evaluation class",
 		Assumptions: []string{
-			"evaluation is compared only for texts whose functions are deterministic and confined (no NOW, RAND, CALL, URL, STDIN, URL::, @#UPTIME; FILE::/INLINE:: only with a literal file name inside the fixture directory); others are checked for print/parse/print only (class eval:not_evaluated)",
+			"evaluation is compared only for texts whose functions are deterministic and confined (no NOW, RAND, CALL, URL, URL::, @#UPTIME; FILE::/INLINE:: only with a literal file name inside the fixture directory); others are checked for print/parse/print only (class eval:not_evaluated)",
+			"a text that mentions STDIN is evaluated in sessions whose standard input is a fixed one-row CSV text; other texts get no standard input",
 			"error classes are csvq's error code/number pairs; messages and positions are not compared",
 			"shapes behind avoidKnown* constants (reported defects) are not generated while the constant is true",
 		},
